@@ -21,6 +21,10 @@ type Family struct {
 	Split    bool // every directory is its own repository (the project is the repository root)
 	Projects []ProjectDef
 	Reverse  bool // ReverseDecl of the generated universes
+	// Stale: every checkout also contains a legacy .dawnconfig with a DIFFERENT requirement
+	// list (each choice rotated by one: none -> first version -> ... -> last version -> none)
+	// written before dawn.toml, plus two ordinary files after it.
+	Stale bool
 
 	nodes [][2]int // (project, version index)
 	radix []int    // one digit per (node, other project)
@@ -78,7 +82,7 @@ func (f *Family) Universe(idx int64) *Universe {
 		digits[i] = int(idx % int64(f.radix[i]))
 		idx /= int64(f.radix[i])
 	}
-	u := &Universe{ReverseDecl: f.Reverse}
+	u := &Universe{ReverseDecl: f.Reverse, ExtraFiles: f.Stale}
 	repoIdx := map[string]int{}
 	repoFor := func(dir string) (*RepoSpec, string) {
 		addr, d := f.Addr, dir
@@ -95,11 +99,15 @@ func (f *Family) Universe(idx int64) *Universe {
 	}
 	// node requirements
 	reqs := make([][]Req, len(f.nodes))
+	stale := make([][]Req, len(f.nodes))
 	d := 0
 	for ni := range f.nodes {
 		for _, pj := range f.other[ni] {
 			if k := digits[d]; k > 0 {
 				reqs[ni] = append(reqs[ni], Req{f.Path(pj), f.Projects[pj].Versions[k-1]})
+			}
+			if k := (digits[d] + 1) % f.radix[d]; k > 0 {
+				stale[ni] = append(stale[ni], Req{f.Path(pj), f.Projects[pj].Versions[k-1]})
 			}
 			d++
 		}
@@ -119,7 +127,11 @@ func (f *Family) Universe(idx int64) *Universe {
 			p := f.Projects[n[0]]
 			repo, dir := repoFor(p.Dir)
 			repo.NRevs++
-			repo.Tags = append(repo.Tags, Tag{Dir: dir, Version: p.Versions[vi], Rev: repo.NRevs, Name: p.Name, Requires: reqs[ni]})
+			tg := Tag{Dir: dir, Version: p.Versions[vi], Rev: repo.NRevs, Name: p.Name, Requires: reqs[ni]}
+			if f.Stale {
+				tg.HasStale, tg.Stale = true, stale[ni]
+			}
+			repo.Tags = append(repo.Tags, tg)
 		}
 	}
 	for i := range u.Repos {
@@ -141,6 +153,48 @@ func (f *Family) RootSets() [][]Req {
 			}
 		}
 		sets = next
+	}
+	return sets
+}
+
+// RootSetsDup is RootSets plus every root set in which exactly ONE project is required under
+// two or three different names at different versions (every pair / triple of its versions),
+// alone and together with every choice (absent or one version) for the other projects.
+func (f *Family) RootSetsDup() [][]Req {
+	sets := f.RootSets()
+	for dp, p := range f.Projects {
+		var multi [][]string
+		n := len(p.Versions)
+		for a := 0; a < n; a++ {
+			for b := a + 1; b < n; b++ {
+				multi = append(multi, []string{p.Versions[a], p.Versions[b]})
+				for c := b + 1; c < n; c++ {
+					multi = append(multi, []string{p.Versions[a], p.Versions[b], p.Versions[c]})
+				}
+			}
+		}
+		for _, vs := range multi {
+			part := [][]Req{nil}
+			for pi, q := range f.Projects {
+				var next [][]Req
+				for _, s := range part {
+					if pi == dp {
+						x := append([]Req{}, s...)
+						for _, v := range vs {
+							x = append(x, Req{f.Path(pi), v})
+						}
+						next = append(next, x)
+						continue
+					}
+					next = append(next, s)
+					for _, v := range q.Versions {
+						next = append(next, append(append([]Req{}, s...), Req{f.Path(pi), v}))
+					}
+				}
+				part = next
+			}
+			sets = append(sets, part...)
+		}
 	}
 	return sets
 }
